@@ -169,6 +169,15 @@ func crlBehaviours() []crlBehaviour {
 	withDelta("delta-no-next-update", true, false, func(w *crlWorld, b, d *pki.CRLSpec) { d.NextUpdate = time.Time{} })
 	withDelta("delta-unknown-critical-ext", true, false, func(w *crlWorld, b, d *pki.CRLSpec) { d.UnknownCrit = true })
 	withDelta("base-lists-cert+delta-clean", false, true, func(w *crlWorld, b, d *pki.CRLSpec) { b.Entries = []pki.CRLEntry{entry(w)} })
+	// what ties a delta to its base are the CRL numbers; a delta whose thisUpdate lies before the base's (CAs backdate the two jobs
+	// differently) counts like any other
+	withDelta("delta-issued-before-its-base+lists-cert", false, true, func(w *crlWorld, b, d *pki.CRLSpec) {
+		b.ThisUpdate, d.ThisUpdate = pki.Now.Add(-time.Hour), pki.Now.Add(-3*time.Hour)
+		d.Entries = []pki.CRLEntry{entry(w)}
+	})
+	withDelta("delta-issued-before-its-base+clean", false, false, func(w *crlWorld, b, d *pki.CRLSpec) {
+		b.ThisUpdate, d.ThisUpdate = pki.Now.Add(-time.Hour), pki.Now.Add(-3*time.Hour)
+	})
 	// CRL number 0 is a number like any other (a CA's first CRL): its delta counts
 	withDelta("base-number-0+delta-lists-cert", false, true, func(w *crlWorld, b, d *pki.CRLSpec) {
 		b.Number, d.Number = 0, 1
